@@ -13,6 +13,10 @@ class Ob:
     def budget_for(self, tier):
         return self.budget[1 if tier == 'thorough' else 0]
 
+    def exhaustive_for(self, tier):
+        e = self.exhaustive
+        return e[1 if tier == 'thorough' else 0] if isinstance(e, tuple) else e
+
     def per_path_for(self, tier):
         return self.per_path[1 if tier == 'thorough' else 0]
 
@@ -22,7 +26,8 @@ def ob(id, marks=(), budget=(40, 150), per_path=(10, 20), bounds='', exhaustive=
     """register harness `fn(V)`.
     budget/per_path: CPU seconds (quick, thorough). bounds/out: stated bounds and what is outside the claim.
     exhaustive=False marks an obligation whose tree is not expected to close (solver-driven region
-    coverage only; never counted as 'proved')."""
+    coverage only; never counted as 'proved'); a pair (quick, thorough) states it per tier (e.g. (True, False): the quick
+    bounds are exhausted, the wider thorough bounds are explored within the budget)."""
     def deco(fn):
         if id in REG:
             raise RuntimeError('duplicate obligation ' + id)
